@@ -48,6 +48,7 @@ type exp6 struct {
 }
 
 type gen6 struct {
+	cfgFalse int // depth of enclosing config false statements
 	r       *rand.Rand
 	b       strings.Builder
 	exp     []exp6
@@ -231,8 +232,14 @@ func (g *gen6) common(path string, kind string) {
 	g.ext(path, &extN)
 	if g.r.Intn(4) == 0 {
 		cfg := g.r.Intn(2) == 0
+		if g.cfgFalse > 0 {
+			cfg = false // config true below config false is not a valid module
+		}
 		g.line("config %v;", cfg)
 		g.exp = append(g.exp, exp6{path: path + ".config", want: cfg, stmt: "config"})
+		if !cfg && (kind == "container" || kind == "list") {
+			g.cfgFalse += 1000 // marks: set by this node (undone by the caller)
+		}
 	}
 	if g.r.Intn(4) == 0 {
 		w := []string{"a = 'x'", "b > 2", "../c"}[g.r.Intn(3)]
@@ -329,7 +336,11 @@ func (g *gen6) node(path string, depth int, name string) {
 			g.leafType(path)
 		}
 		if g.r.Intn(3) == 0 {
-			g.strStmt("units", g.text(), path+".units")
+			u := g.text()
+			if u == "" {
+				u = "u" // an empty units string cannot be told from 'not stated' through the accessors
+			}
+			g.strStmt("units", u, path+".units")
 		}
 		if g.r.Intn(4) == 0 {
 			m := g.r.Intn(2) == 0
@@ -349,6 +360,8 @@ func (g *gen6) node(path string, depth int, name string) {
 	case "container":
 		g.line("container %s {", name)
 		g.ind += 2
+		saved := g.cfgFalse
+		defer func() { g.cfgFalse = saved }()
 		g.common(path, kind)
 		if g.r.Intn(3) == 0 {
 			g.strStmt("presence", g.text(), path+".presence")
@@ -369,6 +382,8 @@ func (g *gen6) node(path string, depth int, name string) {
 		sp, sty := g.spell(strings.Join(keyNames, " "))
 		g.line("key%s%s;", g.ws(), sp)
 		g.exp = append(g.exp, exp6{path: path + ".key", want: keys, stmt: "key", sty: sty})
+		saved := g.cfgFalse
+		defer func() { g.cfgFalse = saved }()
 		g.common(path, kind)
 		g.listDetails(path)
 		if g.r.Intn(3) == 0 {
